@@ -282,86 +282,141 @@ def gen_layoutkeys(repo, kc):
 def gen_charclasses(repo):
     item = "charclasses"
     util = strip_comments(read(f"{repo}/src/utility.rs"))
+    def char_set(body, src, what):
+        """the set of characters a pure membership test denotes; accepted shapes:
+           "literal".contains(*self) | NAME.contains(self|&self|*self) with `const NAME` a &str / char array / char slice in the
+           same file | matches!(self|*self|c, 'a' | 'b' | …).  Anything else (ranges, negation, further logic) is refused."""
+        b = body.strip()
+        m = re.fullmatch(STR + r'\s*\.contains\(\s*[*&]?\s*(?:self|c)\s*\)', b, re.S)
+        if m: return unescape_rust(m.group(1), item)
+        m = re.fullmatch(r'([A-Z][A-Z0-9_]*)\s*\.contains\(\s*[*&]?\s*(?:self|c)\s*\)', b, re.S)
+        if m:
+            name = m.group(1)
+            d = re.search(r'const ' + name + r'\s*:\s*&(?:\'static )?str\s*=\s*' + STR + r'\s*;', src)
+            if d: return unescape_rust(d.group(1), item)
+            d = re.search(r'const ' + name + r'\s*:\s*(?:\[char;\s*\d+\]|&(?:\'static )?\[char\])\s*=\s*&?\[(.*?)\]\s*;', src, re.S)
+            if d:
+                body2 = d.group(1)
+                chars_ = re.findall(CHR, body2)
+                if re.sub(CHR, '', body2).replace(',', '').strip() != "": raise Fail(item, f"{what}: constant {name} is not a plain list of characters")
+                return "".join(unescape_rust(x, item) for x in chars_)
+            raise Fail(item, f"{what}: constant {name} not found in a recognised form")
+        m = re.fullmatch(r'matches!\(\s*[*&]?\s*(?:self|c)\s*,\s*((?:' + CHR + r'\s*\|?\s*)+)\)', b, re.S)
+        if m: return "".join(unescape_rust(x, item) for x in re.findall(CHR, m.group(1)))
+        raise Fail(item, f"{what} has an unexpected shape")
     def cls(fn):
         b = fn_body(util, r'fn ' + fn + r'\(&self\) -> bool', item)
-        m = re.fullmatch(r'\s*' + STR + r'\s*\.contains\(\*self\)\s*', b, re.S)
-        if not m: raise Fail(item, f"{fn} has an unexpected shape")
-        return unescape_rust(m.group(1), item)
-    vowel, kar, cons = cls("is_vowel"), cls("is_kar"), cls("is_pure_consonant")
-    m = re.search(r'const META: &str = ' + STR + ';', util)
-    if not m: raise Fail(item, "META")
-    meta = unescape_rust(m.group(1), item)
+        return char_set(b, util, fn)
     fm = strip_comments(read(f"{repo}/src/fixed/method.rs"))
-    m = re.search(r'const MARKS: &str = ' + STR + ';', fm)
-    if not m: raise Fail(item, "MARKS")
-    marks = unescape_rust(m.group(1), item)
     chars = strip_comments(read(f"{repo}/src/fixed/chars.rs"))
+    pm = strip_comments(read(f"{repo}/src/phonetic/method.rs"))
+    fs = strip_comments(read(f"{repo}/src/fixed/search.rs"))
+    ps = strip_comments(read(f"{repo}/src/phonetic/suggestion.rs"))
     consts = re.findall(r'pub\(crate\) const (\w+): char = ' + CHR + ';', chars)
     cdict = {k: unescape_rust(v, item) for k, v in consts}
-    lb = fn_body(chars, r'fn is_ligature_making_kar\(c: char\) -> bool', item)
-    lk = re.findall(r'c == (\w+)', lb)
-    if not lk or re.sub(r'c == \w+|\|\||\s', '', lb) != "": raise Fail(item, "is_ligature_making_kar shape")
-    lsb = fn_body(fm, r'fn is_left_standing_kar\(c: char\) -> bool', item)
-    ls = re.findall(r'c == (\w+)', lsb)
-    if not ls or re.sub(r'c == \w+|\|\||\s', '', lsb) != "": raise Fail(item, "is_left_standing_kar shape")
-    pm = strip_comments(read(f"{repo}/src/phonetic/method.rs"))
-    m = re.search(r'matches!\(\s*character,\s*((?:' + CHR + r'\s*\|?\s*)+)\)', pm, re.S)
-    if not m: raise Fail(item, "punctuation matches! set")
-    punct = [unescape_rust(x, item) for x in re.findall(CHR, m.group(1))]
-    fs = strip_comments(read(f"{repo}/src/fixed/search.rs"))
-    cb = fn_body(fs, r'fn clean_string\(string: &str\) -> String', item)
-    m = re.search(r'\.filter\(\|&c\| !' + STR + r'\.contains\(c\)\)', cb)
-    if not m: raise Fail(item, "clean_string shape")
-    clean = unescape_rust(m.group(1), item)
-    m = re.search(r'"\^\{\}\[((?:[^\]\\]|\\.)*)\]\{\{0,\{\}\}\}\$"', fs)
-    if not m: raise Fail(item, "search regex shape")
-    rclass = unescape_rust(m.group(1), item)
-    m = re.search(r'let need_chars_upto = match word\.chars\(\)\.count\(\) \{\s*1 => (\d+),\s*2\.\.=3 => (\d+),\s*_ => (\d+),\s*\};', fs)
-    if not m: raise Fail(item, "need_chars_upto shape")
-    need = [int(x) for x in m.groups()]
-    # fixed first-char table
-    tb = fn_body(fs, r'let table = match word\.chars\(\)\.next\(\)\.unwrap_or_default\(\)', item)
-    rows = re.findall(CHR + r'\s*=>\s*' + STR + ',', tb)
-    if len(rows) < 50 or "_ => return" not in tb: raise Fail(item, "first-char table shape")
-    ftab = []
-    seen = set()
-    for c, t in rows:
-        c = unescape_rust(c, item)
-        if c in seen: continue
-        seen.add(c); ftab.append((ord(c), unescape_rust(t, item)))
-    # phonetic first-letter table
-    ps = strip_comments(read(f"{repo}/src/phonetic/suggestion.rs"))
-    m = re.search(r'let table: \[\(&str, &\[&str\]\); (\d+)\] = \[(.*?)\];\s*let table = table\.into_iter\(\)\.collect\(\);', ps, re.S)
-    if not m: raise Fail(item, "phonetic first-letter table")
-    prow = re.findall(r'\(' + STR + r',\s*&\[((?:\s*' + STR + r'\s*,?)*)\]\)', m.group(2))
-    ptab = {}
-    for r in prow:
-        k = unescape_rust(r[0], item)
-        vals = [unescape_rust(x, item) for x in re.findall(STR, r[1])]
-        ptab[k] = vals   # HashMap collect: last wins
-    if len(prow) != int(m.group(1)): raise Fail(item, "phonetic table row count")
+    def str_const(name, srcs):
+        for src in srcs:
+            m = re.search(r'const ' + name + r'\s*:\s*&(?:\'static )?str\s*=\s*' + STR + r'\s*;', src)
+            if m: return unescape_rust(m.group(1), item)
+        raise Fail(item, name)
+    def named_set(fn, src):
+        """a predicate over the named constants of fixed/chars.rs: `c == A || c == B …` or `matches!(c, A | B | …)`"""
+        body = fn_body(src, r'fn ' + fn + r'\(c: char\) -> bool', item).strip()
+        names = re.findall(r'c == (\w+)', body)
+        if names and re.sub(r'c == \w+|\|\||\s', '', body) == "": pass
+        else:
+            m = re.fullmatch(r'matches!\(\s*c\s*,\s*((?:\w+\s*\|?\s*)+)\)', body, re.S)
+            if not m: raise Fail(item, fn + " shape")
+            names = re.findall(r'\w+', m.group(1))
+        for n in names:
+            if n not in cdict: raise Fail(item, f"{fn}: unknown constant {n}")
+        return [ord(cdict[n]) for n in names]
+    def punct_set():
+        m = re.search(r'matches!\(\s*\w+,\s*((?:' + CHR + r'\s*\|?\s*)+)\)', pm, re.S)
+        if m: return "".join(unescape_rust(x, item) for x in re.findall(CHR, m.group(1)))
+        # a named constant tested with `.contains(<the typed character>)`
+        m = re.search(r'([A-Z][A-Z0-9_]*)\s*\.contains\(\s*[*&]?\s*\w+\s*\)', pm)
+        if m: return str_const(m.group(1), [pm])
+        raise Fail(item, "punctuation set of the selection override")
+    def clean_set():
+        cb = fn_body(fs, r'fn clean_string\(string: &str\) -> String', item)
+        m = re.search(r'\.filter\(\|&c\| !' + STR + r'\.contains\(c\)\)', cb)
+        if m: return unescape_rust(m.group(1), item)
+        m = re.search(r'\.filter\(\|&?c\| !([A-Z][A-Z0-9_]*)\.contains\(\*?c\)\)', cb)
+        if m: return str_const(m.group(1), [fs])
+        raise Fail(item, "clean_string shape")
+    def regex_class():
+        # the character class of the search pattern: the one bracket expression in a string literal of fixed/search.rs that is
+        # followed (in the same or a later literal) by a `{0,n}` repetition
+        lits = [unescape_rust(x, item) for x in re.findall(STR, fs)]
+        cands = [m.group(1) for l in lits for m in re.finditer(r'\[([^\]]{10,})\]', l)]
+        if len(cands) != 1: raise Fail(item, f"search regex shape ({len(cands)} bracket expressions)")
+        if not any("{{0,{" in l or "{0," in l for l in lits): raise Fail(item, "search regex shape (no bounded repetition)")
+        if not any(l.startswith("^") or l == "^" for l in lits) and "push('^')" not in fs: raise Fail(item, "search regex shape (no anchor)")
+        return cands[0]
+    def need_chars():
+        m = re.search(r'=\s*match \w+\.chars\(\)\.count\(\) \{\s*1 => (\d+),\s*2\.\.=3 => (\d+),\s*_ => (\d+),?\s*\};', fs)
+        if not m: raise Fail(item, "need_chars_upto shape")
+        return [int(x) for x in m.groups()]
+    def first_char_table():
+        rows = re.findall(CHR + r'\s*=>\s*' + STR + ',', fs)
+        if len(rows) >= 50:
+            if "_ => return" not in fs: raise Fail(item, "first-char table: no early return for unknown characters")
+        else:
+            m = re.search(r'const (\w+)\s*:\s*\[\(char, &(?:\'static )?str\);\s*(\d+)\]\s*=\s*\[(.*?)\];', fs, re.S)
+            if not m: raise Fail(item, "first-char table shape")
+            rows = re.findall(r'\(\s*' + CHR + r'\s*,\s*' + STR + r'\s*\)', m.group(3))
+            if len(rows) != int(m.group(2)): raise Fail(item, "first-char table: row count")
+        ftab = []; seen = set()
+        for c, t in rows:
+            c = unescape_rust(c, item)
+            if c in seen: continue            # first match wins in both forms
+            seen.add(c); ftab.append((ord(c), unescape_rust(t, item)))
+        return ftab
+    def phonetic_table():
+        m = re.search(r'let table: \[\(&str, &\[&str\]\); (\d+)\] = \[(.*?)\];\s*let table = table\.into_iter\(\)\.collect\(\);', ps, re.S)
+        if not m: raise Fail(item, "phonetic first-letter table")
+        prow = re.findall(r'\(' + STR + r',\s*&\[((?:\s*' + STR + r'\s*,?)*)\]\)', m.group(2))
+        if len(prow) != int(m.group(1)): raise Fail(item, "phonetic table row count")
+        ptab = {}
+        for r in prow: ptab[unescape_rust(r[0], item)] = [unescape_rust(x, item) for x in re.findall(STR, r[1])]   # HashMap collect: last wins
+        return ptab
+    def canon(t): return nat_list(sorted(set(ord(c) for c in t)))     # membership only: listing order is not behaviour
+    # every definition is extracted on its own: one that cannot be read keeps the value of the last successful translation and is
+    # reported as `charclasses.<name>`, so that only the properties that depend on it are affected
+    subs = [
+        ("vowelSet", "List Nat", lambda: canon(cls("is_vowel"))),
+        ("karSet", "List Nat", lambda: canon(cls("is_kar"))),
+        ("pureConsonantSet", "List Nat", lambda: canon(cls("is_pure_consonant"))),
+        ("metaSet", "List Nat", lambda: canon(str_const("META", [util]))),
+        ("marksSet", "List Nat", lambda: canon(str_const("MARKS", [fm]))),
+        ("ligatureKarSet", "List Nat", lambda: nat_list(sorted(named_set("is_ligature_making_kar", chars)))),
+        ("leftStandingKarSet", "List Nat", lambda: nat_list(sorted(named_set("is_left_standing_kar", fm)))),
+        ("punctOverrideSet", "List Nat", lambda: canon(punct_set())),
+        ("cleanSet", "List Nat", lambda: canon(clean_set())),
+        ("regexClassSet", "List Nat", lambda: canon(regex_class())),
+        ("needCharsUpto", "Nat → Nat", lambda: (lambda n: f"fun | 1 => {n[0]} | 2 => {n[1]} | 3 => {n[1]} | _ => {n[2]}")(need_chars())),
+        ("fixedFirstCharTable", "List (Nat × String)", lambda: "[" + ", ".join(f'({c}, "{t}")' for c, t in first_char_table()) + "]"),
+        ("phoneticFirstLetterTable", "List (Nat × List String)", lambda: "[" + ", ".join(f'({ord(k)}, [' + ", ".join(f'"{x}"' for x in v) + '])' for k, v in phonetic_table().items() if len(k) == 1) + "]"),
+    ]
+    old = {}
+    oldp = os.path.join(os.path.dirname(os.path.abspath(__file__)), "..", "lean", "RitiModel", "Gen", "CharClasses.lean")
+    if os.path.exists(oldp):
+        for mm in re.finditer(r'^def (\w+) : ([^\n]*?) := (.*)$', read(oldp), re.M): old[mm.group(1)] = mm.group(3)
     L = ["/- GENERATED by tools/translate.py from src/utility.rs, src/fixed/{method,chars,search}.rs, src/phonetic/{method,suggestion}.rs — do not edit -/",
          "namespace Riti.Gen"]
-    L.append("def vowelSet : List Nat := " + cps(vowel))
-    L.append("def karSet : List Nat := " + cps(kar))
-    L.append("def pureConsonantSet : List Nat := " + cps(cons))
-    L.append("def metaSet : List Nat := " + cps(meta))
-    L.append("def marksSet : List Nat := " + cps(marks))
-    L.append("def ligatureKarSet : List Nat := " + nat_list([ord(cdict[k]) for k in lk]))
-    L.append("def leftStandingKarSet : List Nat := " + nat_list([ord(cdict[k]) for k in ls]))
-    L.append("def punctOverrideSet : List Nat := " + cps("".join(punct)))
-    L.append("def cleanSet : List Nat := " + cps(clean))
-    L.append("def regexClassSet : List Nat := " + cps(rclass))
-    L.append(f"def needCharsUpto : Nat → Nat | 1 => {need[0]} | 2 => {need[1]} | 3 => {need[1]} | _ => {need[2]}")
-    for k, v in consts:
+    sub_failed = []
+    for name, ty, f in subs:
+        try: val = f()
+        except Fail as e:
+            if name not in old: raise
+            val = old[name]; sub_failed.append((f"charclasses.{name}", e.why))
+        L.append(f"def {name} : {ty} := {val}")
+    if not consts: raise Fail(item, "no character constants found in fixed/chars.rs")
+    for k in sorted(cdict):                                            # declaration order is not behaviour
         L.append(f"def {k} : Nat := {ord(cdict[k])}")
-    L.append("/-- fixed search: first code point → dictionary table name -/")
-    L.append("def fixedFirstCharTable : List (Nat × String) := [" + ", ".join(f'({c}, "{t}")' for c, t in ftab) + "]")
-    L.append("/-- phonetic search: first letter → dictionary table names -/")
-    L.append("def phoneticFirstLetterTable : List (Nat × List String) := [" +
-             ", ".join(f'({ord(k)}, [' + ", ".join(f'"{x}"' for x in v) + '])' for k, v in ptab.items() if len(k) == 1) + "]")
     L.append("end Riti.Gen")
-    return "CharClasses.lean", "\n".join(L) + "\n"
+    return "CharClasses.lean", "\n".join(L) + "\n", sub_failed
 
 def gen_rankcmp(repo):
     item = "rankcmp"
@@ -621,21 +676,35 @@ def gen_logicconsts(repo):
     def guard(op, n): return int(n) + (1 if op == ">" else 0)      # smallest length that passes
     pushes = [ord(unescape_rust(x, item)) for x in re.findall(r'\.push\(' + CHR + r'\)', ps)]
     arms = [ord(unescape_rust(x, item)) for x in re.findall(r'\n\s*' + CHR + r'\s*=>\s*\{', ps)]
+    def groups(xs, n):
+        if not xs or len(xs) % n != 0: raise Fail(item, f"joining characters: {len(xs)} found, not a multiple of {n}")
+        out = []
+        for i in range(0, len(xs), n):
+            g = xs[i:i + n]
+            if g not in out: out.append(g)
+        return "[" + ", ".join(nat_list(g) for g in out) + "]"
     zs = re.findall(r'\.zip\((\d+)\.\.\)', ps) + re.findall(r'\.zip\((\d+)\.\.\)', fm)
     tr = [int(x) for x in re.findall(r'self\.suggestions\.truncate\((\d+)\)', fm)]
     fl = [int(x) for x in re.findall(r'Rank::last_ranked\([^;]*?,\s*(\d+)\s*,?\s*\)', fm, re.S)]
     # the two sign → independent-vowel tables of process_key_value (automatic vowel forming; hasanta + sign)
     chars_src = strip_comments(read(f"{repo}/src/fixed/chars.rs"))
     cd = {k: ord(unescape_rust(v, item)) for k, v in re.findall(r'pub\(crate\) const (\w+): char = ' + CHR + ';', chars_src)}
-    t_auto = re.findall(r'(B_\w+_KAR) => self\.buffer\.push\((B_\w+)\),', fm)
-    t_has = re.findall(r'(B_\w+_KAR) => \{\s*self\.buffer\.pop\(\);\s*self\.buffer\.push\((B_\w+)\);\s*\}', fm)
-    if len(t_auto) < 10 or len(t_has) != 10: raise Fail(item, f"sign→vowel tables: {len(t_auto)} / {len(t_has)} arms")
-    # the first ten push-arms after "Automatic Vowel Forming" are the auto-vowel table (the pending-kar code has its own pushes of another shape)
-    av = fm.index("match character {", fm.index("autoVowelPos") if "autoVowelPos" in fm else fm.index("rmc.is_vowel() || MARKS.contains(rmc))\n                {\n                    match character"))
-    t_auto = re.findall(r'(B_\w+_KAR) => self\.buffer\.push\((B_\w+)\),', fm[av:av + 1200])
-    if len(t_auto) != 10: raise Fail(item, f"automatic-vowel table has {len(t_auto)} arms")
-    for k, v in t_auto + t_has:
-        if k not in cd or v not in cd: raise Fail(item, f"unknown constant {k} / {v}")
+    # every sign → independent-vowel table of fixed/method.rs, whatever its form: runs of adjacent match arms
+    #   B_x_KAR => self.buffer.push(B_y), | B_x_KAR => { self.buffer.pop(); self.buffer.push(B_y); } | B_x_KAR => Some(B_y), | B_x_KAR => B_y,
+    arm = re.compile(r'(B_\w+_KAR)\s*=>\s*(?:self\.buffer\.push\((B_\w+)\)|\{\s*self\.buffer\.pop\(\);\s*self\.buffer\.push\((B_\w+)\);?\s*\}|Some\((B_\w+)\)|(B_\w+))\s*,?')
+    tables = []; cur = []; last_end = None
+    for mm in arm.finditer(fm):
+        v = next(g for g in mm.groups()[1:] if g)
+        if last_end is not None and fm[last_end:mm.start()].strip() == "": cur.append((mm.group(1), v))
+        else:
+            if len(cur) >= 5: tables.append(cur)
+            cur = [(mm.group(1), v)]
+        last_end = mm.end()
+    if len(cur) >= 5: tables.append(cur)
+    if not tables: raise Fail(item, "no sign→vowel table found in fixed/method.rs")
+    for tb in tables:
+        for k, v in tb:
+            if k not in cd or v not in cd: raise Fail(item, f"unknown constant {k} / {v}")
     m1 = re.search(r'// Zo-fola insertion\s*if value == ' + STR, read(f"{repo}/src/fixed/method.rs"))
     m2 = re.search(r'if value == ' + STR + r' && config\.get_fixed_old_reph\(\)', fm)
     if not m1 or not m2: raise Fail(item, "zo-fola / reph literals")
@@ -646,15 +715,14 @@ def gen_logicconsts(repo):
          "/-- smallest word length for which suffix candidates are built / a learned base is searched -/",
          f"def suffixMinLen : Nat := {guard(*g1[0])}",
          f"def prevSelMinLen : Nat := {guard(*g2[0])}",
-         "/-- characters pushed by the joining rules and matched in their arms, source order -/",
-         f"def joinPushed : List Nat := {nat_list(pushes)}",
-         f"def joinMatched : List Nat := {nat_list(arms)}",
+         "/-- characters pushed by the joining rules and matched in their arms, source order, as the DISTINCT groups found (one per copy of the joining code; a shared helper gives one copy) -/",
+         f"def joinPushedGroups : List (List Nat) := {groups(pushes, 3)}",
+         f"def joinMatchedGroups : List (List Nat) := {groups(arms, 2)}",
          f"def emojiRankStarts : List Nat := {nat_list([int(z) for z in zs])}",
          f"def fixedTruncations : List Nat := {nat_list(tr)}",
          f"def fixedLastRankNumbers : List Nat := {nat_list(fl)}",
-         "/-- sign → independent vowel, as (sign, vowel) code points: automatic vowel forming; hasanta + sign -/",
-         "def signVowelAuto : List (Nat × Nat) := [" + ", ".join(f"({cd[k]}, {cd[v]})" for k, v in t_auto) + "]",
-         "def signVowelHasanta : List (Nat × Nat) := [" + ", ".join(f"({cd[k]}, {cd[v]})" for k, v in t_has) + "]",
+         "/-- every sign → independent vowel table of fixed/method.rs (automatic vowel forming; hasanta + sign; or one shared helper), as (sign, vowel) code points -/",
+         "def signVowelTables : List (List (Nat × Nat)) := [" + ", ".join("[" + ", ".join(f"({cd[k]}, {cd[v]})" for k, v in tb) + "]" for tb in tables) + "]",
          f"def zoFolaLiteral : List Nat := {cps(unescape_rust(m1.group(1), item))}",
          f"def rephLiteral : List Nat := {cps(unescape_rust(m2.group(1), item))}",
          "end Riti.Gen"]
@@ -687,7 +755,9 @@ def main():
         failed.append(("layoutkeys", "depends on keycodes"))
     for item, f in (("charclasses", gen_charclasses), ("rankcmp", gen_rankcmp), ("okkhor", gen_okkhor), ("okkhorregex", gen_okkhorregex), ("panicsites", gen_panicsites), ("logicconsts", gen_logicconsts)):
         r = run(item, lambda: f(a.repo))
-        if r: outs.append(r)
+        if r:
+            outs.append(r[:2])
+            if len(r) > 2: failed.extend(r[2])      # sub-items that kept their previous value
     # the Bijoy encoder tables of the pinned poriborton crate (tools/gen_bijoy.py)
     try:
         sys.path.insert(0, os.path.dirname(os.path.abspath(__file__)))
